@@ -152,7 +152,7 @@ class C03(F.Check):
         'compression configuration here is the default negotiated one; all 256 configurations are C06',
         'close(code=None) (empty Close payload) and a bytearray close reason are executed but not judged beyond frame validity',
     ]
-    expect_sites = ('frame', 'reject', 'rsv1', 'close', 'lane-table', 'len16', 'len64')
+    expect_sites = ('frame', 'reject', 'rsv1', 'close', 'lane-table', 'len16', 'len64', 'debug-logging')
 
     def rule(self, tier):
         return ('one Ready connection per (family, key, negotiated); every call in the family is made at Ready and its wire delta is decoded. '
@@ -173,6 +173,9 @@ class C03(F.Check):
                                  'texts': ['ascii', 'two', 'three', 'four'], 'key': key.hex(), 'neg': neg})
                 for fam in ('codepoints', 'control', 'types'):
                     jobs.append({'k': fam, 'key': key.hex(), 'neg': neg})
+                    jobs.append({'k': fam, 'key': key.hex(), 'neg': neg, 'debug': True})
+                jobs.append({'k': 'data', 'lengths': [0, 1, 5, 125, 126, 65536], 'patterns': ['count', 'rand'], 'texts': ['three'],
+                             'key': key.hex(), 'neg': neg, 'debug': True})
         for base in range(0, 256, 16):
             jobs.append({'k': 'mask', 'keys': ['%02x%02x%02x%02x' % (k, (k + 1) & 255, (k + 2) & 255, (k + 3) & 255) for k in range(base, base + 16)]})
         cc = close_cases()
@@ -181,7 +184,30 @@ class C03(F.Check):
         return jobs
 
     # ------------------------------------------------------------------ one connection
-    def connection(self, calls, key, neg, closing_call=None):
+    def connection(self, calls, key, neg, closing_call=None, debug=False):
+        if debug:
+            return self._with_debug_logging(calls, key, neg)
+        return self._connection(calls, key, neg)
+
+    def _with_debug_logging(self, calls, key, neg):
+        """Same connection with the 'lomond' logger at DEBUG (log statements then evaluate their arguments)."""
+        import logging
+        lg = logging.getLogger('lomond')
+        old_level, old_disable = lg.level, logging.root.manager.disable
+        handler = logging.NullHandler()
+        logging.disable(logging.NOTSET)
+        lg.setLevel(logging.DEBUG)
+        lg.addHandler(handler)
+        old_prop, lg.propagate = lg.propagate, False
+        try:
+            return self._connection(calls, key, neg)
+        finally:
+            lg.removeHandler(handler)
+            lg.setLevel(old_level)
+            lg.propagate = old_prop
+            logging.disable(old_disable)
+
+    def _connection(self, calls, key, neg):
         """Run the calls at Ready. Returns (run, records) ; record = (label, api, exp, status, error, delta bytes, args-intact)."""
         records = []
         keyb = bytes.fromhex(key)
@@ -308,7 +334,7 @@ class C03(F.Check):
                 out.append((run, records, problems, outcomes, {'k': 'mask', 'keys': [key]}))
         else:
             calls = build_calls(spec)
-            run, records = self.connection(calls, spec['key'], neg)
+            run, records = self.connection(calls, spec['key'], neg, debug=bool(spec.get('debug')))
             problems, outcomes = self.judge_records(records, neg, spec['key'])
             out.append((run, records, problems, outcomes, spec))
         return out
@@ -334,6 +360,8 @@ class C03(F.Check):
                         res.covered.add('len16')
                     if lenform == 64:
                         res.covered.add('len64')
+            if case.get('debug'):
+                res.covered.add('debug-logging')
             if case['k'] == 'mask':
                 res.covered.add('lane-table')
                 res.counters['lane_triples'] += 4 * 256
